@@ -222,15 +222,44 @@ fn c13_grid(rng: &mut Rng, acc: &mut Acc) {
 // ---------------------------------------------------------------------------
 // C11
 // ---------------------------------------------------------------------------
+/// Edges of one axis through one of the constructors: From<Vec>, From<Array1>, From<Array1> of an owned array
+/// that is a stepped / an offset-and-reversed slice of a larger allocation (the hidden cells hold guard values).
+fn edges_via<A: Ord + Clone + Elem>(input: &[A], via: usize) -> Edges<A> {
+    match via % 4 {
+        0 => Edges::from(input.to_vec()),
+        1 => Edges::from(Array1::from(input.to_vec())),
+        2 => {
+            let mut big = Vec::with_capacity(input.len() * 2 + 1);
+            for (i, x) in input.iter().enumerate() {
+                big.push(x.clone());
+                big.push(A::guard(i));
+            }
+            big.push(A::guard(99));
+            let n2 = big.len();
+            Edges::from(Array1::from(big).slice_move(ndarray::s![..n2 - 1;2]))
+        }
+        _ => {
+            let mut big = vec![A::guard(5)];
+            big.extend(input.iter().rev().cloned());
+            big.push(A::guard(6));
+            let n2 = big.len();
+            Edges::from(Array1::from(big).slice_move(ndarray::s![1..n2 - 1;-1]))
+        }
+    }
+}
+
 fn c11_history<A: Ord + Clone + std::fmt::Debug + Elem>(acc: &mut Acc, axes_in: &[Vec<A>], obs: &[Vec<A>], tname: &str, matrix_layouts: bool, rng: &mut Rng) -> bool {
     let nd = axes_in.len();
+    let via = rng.below(4);
+    acc.count(&format!("edges_constructor_{}", via));
     let models: Vec<Vec<A>> = axes_in.iter().map(|e| e.iter().cloned().collect::<BTreeSet<_>>().into_iter().collect()).collect();
     let shape: Vec<usize> = models.iter().map(|m| m.len().saturating_sub(1)).collect();
-    let mk_grid = || Grid::from(axes_in.iter().map(|e| Bins::new(Edges::from(e.clone()))).collect::<Vec<_>>());
+    let mk_grid = || Grid::from(axes_in.iter().enumerate().map(|(a, e)| Bins::new(edges_via(e, via + a))).collect::<Vec<_>>());
     let cj = |what: String, step: usize| {
         J::obj(vec![
             ("elem", J::s(tname)),
             ("axes_edges_input", J::s(format!("{:?}", axes_in))),
+            ("edges_constructor_of_first_axis", J::s(["From<Vec>", "From<Array1>", "From<Array1> (owned, stepped slice of a larger buffer)", "From<Array1> (owned, offset + reversed slice)"][via % 4])),
             ("observations", J::s(format!("{:?}", &obs[..obs.len().min(40)]))),
             ("failing_step", J::u(step)),
             ("what", J::s(what)),
@@ -1059,5 +1088,53 @@ fn main() {
             acc.nontrivial(h64(&data.iter().map(|x| x.raw().to_bits()).collect::<Vec<_>>()));
         });
     }
+    if prop == "C12" {
+        // a tight cluster plus two far outliers: the Freedman-Diaconis width follows the small inter-quartile range,
+        // so covering the outliers takes 7*10^4 .. 1.8*10^5 bins (still below the harness's own limit of 2*10^5)
+        r.section("fd_many_bins", r.args.n(90, 2_000), |k, rng, acc| match k % 3 {
+            0 => c12_many_bins::<i64>(rng, acc),
+            1 => c12_many_bins::<i32>(rng, acc),
+            _ => c12_many_bins::<N64>(rng, acc),
+        });
+    }
     r.finish("hist", vec![]);
+}
+
+fn c12_many_bins<T: HElem>(rng: &mut Rng, acc: &mut Acc) {
+    let n = *rng.pick(&[5usize, 9, 30, 100, 1000]);
+    let d = if T::FLOAT { *rng.pick(&[0.37, 1.0, 0.01]) } else { 1.0 };
+    // cluster c + j*d, j = 0..n-2, then two outliers; the estimate of the width only sizes the outliers' distance
+    let m = n - 2;
+    let lo_i = ((0.25 * (n - 1) as f64).round() as usize).max(1) - 1; // rank inside the cluster (outlier below occupies rank 0)
+    let hi_i = ((0.75 * (n - 1) as f64).round() as usize).min(n - 2) - 1;
+    let iqr = (hi_i - lo_i) as f64 * d;
+    let denom = if T::FLOAT { (n as f64).cbrt() } else { (n as f64).cbrt().floor().max(1.0) };
+    let width_est = if T::FLOAT { 2.0 * iqr / denom } else { (2.0 * iqr / denom).floor() };
+    if !(width_est > 0.0) {
+        return;
+    }
+    let bins_target = 70_000.0 + rng.unit() * 110_000.0;
+    let span = (m - 1) as f64 * d;
+    let reach = ((bins_target * width_est - span) / 2.0).max(width_est);
+    let c = reach.ceil() + 10.0; // keeps every value non-negative
+    let mut vals: Vec<f64> = (0..m).map(|j| c + j as f64 * d).collect();
+    vals.push(c - reach.floor());
+    vals.push(c + span + reach.floor());
+    rng.shuffle(&mut vals);
+    let data: Vec<T> = match vals.iter().map(|&v| if T::FLOAT { T::from_f64(v) } else { T::from_i64(v as i64) }).collect::<Option<Vec<T>>>() {
+        Some(dv) => dv,
+        None => return,
+    };
+    acc.count(&format!("elem_{}", T::NAME));
+    SKIPPED.with(|s| s.set(false));
+    let cname = "tight cluster + two far outliers (7e4..1.8e5 Freedman-Diaconis bins)";
+    c12_one::<T, FreedmanDiaconis<T>, FreedmanDiaconis<Counted<T>>>(acc, &data, cname, false);
+    c12_one::<T, Auto<T>, Auto<Counted<T>>>(acc, &data, cname, false);
+    if SKIPPED.with(|s| s.get()) {
+        acc.count("many_bins_case_over_harness_limit");
+    } else {
+        acc.count("many_bins_case_judged");
+    }
+    acc.nontrivial(h64(&(T::NAME, data.iter().map(|x| x.bits()).collect::<Vec<_>>())));
+    acc.sample(|| J::obj(vec![("elem", J::s(T::NAME)), ("n", J::u(n)), ("data_class", J::s(cname)), ("width_estimate", J::F(width_est)), ("head", J::A(data.iter().take(8).map(|x| J::s(x.show())).collect()))]));
 }
